@@ -16,6 +16,7 @@ func init() {
 		&slip.FuncDoc{
 			Name: "declare",
 			Args: []*slip.DocArg{
+				{Name: "&rest"},
 				{
 					Name: "specifiers",
 					Type: "object",
